@@ -130,9 +130,9 @@ func (obj HashTable) LoadForm() Object {
 	for k, v := range obj {
 		switch k.(type) {
 		case Symbol:
-			form = append(form, List{Symbol("setf"), List{Symbol("gethash"), List{quoteSymbol, k}, tsym}, v})
+			form = append(form, List{Symbol("setf"), List{Symbol("gethash"), List{quoteSymbol, k}, tsym}, LoadFormOf(v)})
 		case String, Number, nil:
-			form = append(form, List{Symbol("setf"), List{Symbol("gethash"), k, tsym}, v})
+			form = append(form, List{Symbol("setf"), List{Symbol("gethash"), k, tsym}, LoadFormOf(v)})
 		}
 	}
 	form = append(form, Symbol("table"))
